@@ -73,14 +73,14 @@ Proof.
   intro Hev. induction is as [|[n merge] rest IH]; intros base my s Hs; [exact Hs|].
   rewrite env_go_cons, bind_eq. change (imps_get n s) with (alookup n (imps s), s). cbn [fst snd].
   destruct (alookup n (imps s)) as [i|].
-  - destruct (is_evaluating i); [rewrite bind_eq|]; apply IH; [|exact Hs].
+  - destruct (is_evaluating i); [rewrite bind_eq; apply IH|destruct (is_value i); apply IH; exact Hs].
     eapply wfm_same_memo; [| |exact Hs]; [reflexivity|auto].
   - rewrite bind_eq. cbv beta. rewrite bind_eq.
     set (s1 := snd (emit (EvLoad n) (snd (call W s)))).
     assert (H1 : wfm s1) by (eapply wfm_same_memo; [| |exact Hs]; [reflexivity|auto]).
     destruct (load_result W (fst (call W s)) n) as [| |d'].
-    + rewrite bind_eq. apply IH. eapply wfm_same_memo; [| |exact H1]; [reflexivity|auto].
-    + rewrite bind_eq. apply IH. eapply wfm_same_memo; [| |exact H1]; [reflexivity|auto].
+    + rewrite bind_eq, bind_eq. apply IH. apply wfm_imps_set. eapply wfm_same_memo; [| |exact H1]; [reflexivity|auto].
+    + rewrite bind_eq, bind_eq. apply IH. apply wfm_imps_set. eapply wfm_same_memo; [| |exact H1]; [reflexivity|auto].
     + rewrite bind_eq. cbv beta. rewrite bind_eq. apply IH. apply wfm_imps_set. apply Hev, H1.
 Qed.
 
@@ -182,6 +182,18 @@ Proof.
   split; [|exact Hw]. intros k c Hin. specialize (H4 k c Hin). lia.
 Qed.
 
+(* registering a failed import: an entry without a value *)
+Lemma Linv_failed T K n s base my :
+  Linv T K s base my -> Linv T K (snd (imps_set n {| is_evaluating := false; is_value := None |} s)) base my.
+Proof.
+  intros (H1 & H2 & H3 & H4 & H5).
+  assert (Hr : Rem (snd (imps_set n {| is_evaluating := false; is_value := None |} s)) <= Rem s)
+    by (apply Rem_st_le, mono_imps_set).
+  split; [|split; [lia|split; [lia|split; [|apply wfm_imps_set, H5]]]].
+  - intros n' i' v' [[= <- <-]|Hin] Hv'; [discriminate Hv'|]. specialize (H1 n' i' v' Hin Hv'). lia.
+  - intros k c Hin. specialize (H4 k c Hin). lia.
+Qed.
+
 Lemma env_go_depth T K (ev : string -> envdef -> M chain) :
   (forall n d s, alookup n (w_envs W) = Some (LoadOk d) -> alookup n (imps s) = None ->
      stored T K s -> C0 W + Rem s + K <= T -> wfm s ->
@@ -196,9 +208,9 @@ Proof.
   - destruct (is_evaluating i).
     + rewrite bind_eq. apply IH. eapply Linv_later; [| | |exact HL]; [auto|reflexivity|].
       eapply wfm_same_memo; [| |apply HL]; [reflexivity|auto].
-    + apply IH. destruct HL as (H1 & H2 & H3 & H4 & H5).
-      assert (Hval : cdepth (match is_value i with Some v => v | None => [] end) + Rem s + K <= T).
-      { destruct (is_value i) as [v|] eqn:Ev; [apply (H1 n i v (alookup_In _ _ _ En) Ev)|cbn [cdepth]; lia]. }
+    + destruct (is_value i) as [v|] eqn:Ev; [|apply IH; exact HL].
+      apply IH. destruct HL as (H1 & H2 & H3 & H4 & H5).
+      assert (Hval : cdepth v + Rem s + K <= T) by (apply (H1 n i v (alookup_In _ _ _ En) Ev)).
       split; [exact H1|]. split; [exact H2|]. split; [destruct merge; [rewrite cdepth_app; lia|exact H3]|].
       split; [|exact H5]. intros k c Hin. apply In_ainsert2 in Hin. destruct Hin as [[= -> ->]|Hin]; [exact Hval|eapply H4, Hin].
   - rewrite bind_eq. cbv beta. rewrite bind_eq.
@@ -207,9 +219,11 @@ Proof.
     { eapply Linv_later; [| | |exact HL]; [auto|reflexivity|]. eapply wfm_same_memo; [| |apply HL]; [reflexivity|auto]. }
     assert (En1 : alookup n (imps s1) = None) by exact En.
     destruct (load_result W (fst (call W s)) n) as [| |d'] eqn:El.
-    + rewrite bind_eq. apply IH. eapply Linv_later; [| | |exact HL1]; [auto|reflexivity|].
+    + rewrite bind_eq, bind_eq. apply IH. apply Linv_failed.
+      eapply Linv_later; [| | |exact HL1]; [auto|reflexivity|].
       eapply wfm_same_memo; [| |apply HL1]; [reflexivity|auto].
-    + rewrite bind_eq. apply IH. eapply Linv_later; [| | |exact HL1]; [auto|reflexivity|].
+    + rewrite bind_eq, bind_eq. apply IH. apply Linv_failed.
+      eapply Linv_later; [| | |exact HL1]; [auto|reflexivity|].
       eapply wfm_same_memo; [| |apply HL1]; [reflexivity|auto].
     + rewrite bind_eq. cbv beta. rewrite bind_eq.
       destruct HL1 as (H1 & H2 & H3 & H4 & H5).
